@@ -50,4 +50,8 @@ CFS = 'tdda/referencetest/checkfiles.py'
 VARIANTS += [
     M('C11', 'captured-output-split-on-newline-only', E(CFS, "            actuals = actual.splitlines()\n            actual_ends_with_newline = actual.endswith('\\n')", "            actuals = actual.split('\\n')\n            actual_ends_with_newline = actual.endswith('\\n')"),
       rule='C11-SPLIT', key='check_string_against_file'),
+    M('C11', 'revert-fix-F36-filetype-by-base-name', E(GT, "                                or FileType(ref_file))", "                                or FileType(short_path))"), rule='C11-SCRIPT', key='one-iteration'),
+    M('C11', 'revert-fix-F37-max-files-keyword', E(GT, "        params['max_snapshot_files'] = flags.max_files", "        params['max_files'] = flags.max_files"), rule='C11-FLAGKW', key='-m 7'),
+    M('C11', 'colliding-copy-recorded-in-the-run-directory', E(GT, "                mapped_ref_path = self.ref_path(path) + str(suffix)", "                mapped_ref_path = ref_path"), rule='C11-REFMAP', key='copy_reference_files'),
+    M('C11', 'command-with-percent-breaks-template', E(GT, "                'COMMAND': repr(self.command),", "                'COMMAND': repr(self.command) % (),"), rule='C11-SCRIPT', key='command-7'),
 ]
